@@ -147,14 +147,24 @@ func scriptStmts(c *Ctx) []string {
 		}
 		switch k {
 		case 9:
-			switch c.R.Intn(3) {
+			switch c.R.Intn(5) {
 			case 0:
 				out = append(out, fmt.Sprintf("%s = m(a, %d) + 1", v, c.R.Intn(5)))
 				defined[v] = true
 			case 1:
 				out = append(out, fmt.Sprintf("func g%d(x) {\n\tm(x, %d)\n}", i, c.R.Intn(5)), fmt.Sprintf("println(g%d(b))", i))
-			default:
+			case 2:
 				out = append(out, fmt.Sprintf("for i = 2 {\n\tprintln(m(i, a))\n}"))
+			default:
+				// the only macro call of the statement sits where a walk over the tree may not look: callee position, a lambda
+				// body called at once, an index / map / prefix / condition operand, an argument of another macro call
+				d := c.R.Intn(5)
+				out = append(out, c.R.Pick([]string{
+					fmt.Sprintf("r%d = (() => m(a, %d))()", i, d), fmt.Sprintf("r%d = [m(a, %d)][0]", i, d), fmt.Sprintf("r%d = {1: m(b, %d)}[1]", i, d),
+					fmt.Sprintf("r%d = -m(a, %d)", i, d), fmt.Sprintf("if m(a, %d) != 0 {\n\tprintln(\"nz\")\n}", d), fmt.Sprintf("r%d = m(m(a, 1), %d)", i, d),
+					fmt.Sprintf("k%d = n => m(n, %d)", i, d), fmt.Sprintf("r%d = func() {\n\tm(a, %d)\n}()", i, d), fmt.Sprintf("r%d = [1, 2, 3][m(0, 0):]", i),
+					fmt.Sprintf("r%d = len([m(a, %d), m(b, 1)])", i, d)}))
+				out = append(out, fmt.Sprintf("println(\"r\", %s)", c.R.Pick([]string{"a", "b"})))
 			}
 		case 10:
 			// del of a variable, a function or a macro name, followed by a new binding of that name
@@ -374,6 +384,9 @@ func run(c *Ctx) {
 			complete(c, src, &s)
 			cutsOf(c, src, &s)
 		}
+		if len(f) == 2 && f[0] == "INTERACTIVE" {
+			interactive(c)
+		}
 		return
 	}
 	var s st
@@ -414,6 +427,7 @@ func run(c *Ctx) {
 		}
 	}
 	sessions(c, &s)
+	interactive(c)
 	c.Dist["complete-programs"] = s.complete
 	c.Dist["prefix-cuts"] = s.cuts
 	c.Dist["open-prefix-cuts"] = s.cutsOpen
